@@ -210,7 +210,90 @@ func (c *ctx) argReads(ss []ast.Stmt, root *ast.Ident, f func(idx int64, conditi
 	walkList(ss, false)
 }
 
+// delegates: the functions or methods of the package that the statements hand the function node
+// `root` itself to (`b.processSubstring(root, props)`): the arm's work then sits in their bodies.
+// processNode and friends receive `root.Args[i]`, never `root`, so they are not delegates.
+func (c *ctx) delegates(ss []ast.Stmt, root *ast.Ident) (out []*ast.FuncDecl, pids []*ast.Ident) {
+	for _, s := range ss {
+		ast.Inspect(s, func(n ast.Node) bool {
+			call, ok := n.(*ast.CallExpr)
+			if !ok {
+				return true
+			}
+			at := -1
+			for i, a := range call.Args {
+				if c.sameIdent(a, root) {
+					at = i
+				}
+			}
+			if at < 0 {
+				return true
+			}
+			var fd *ast.FuncDecl
+			if x, m, ok := sel(call.Fun); ok {
+				if tv, ok := c.info.Types[x]; ok && tv.Type != nil {
+					fd = c.funcDecl(strings.TrimPrefix(c.typeString(tv.Type), "*"), m)
+				}
+			} else if id, ok := unparen(call.Fun).(*ast.Ident); ok {
+				fd = c.funcDecl("", id.Name)
+			}
+			if fd == nil || fd.Body == nil {
+				return true
+			}
+			ps := params(fd.Type)
+			if at < len(ps) && ps[at] != nil {
+				out = append(out, fd)
+				pids = append(pids, ps[at])
+			}
+			return true
+		})
+	}
+	return
+}
+
 func (c *ctx) funcEntryOf(cc *ast.CaseClause, root *ast.Ident) funcEntry {
+	fe := c.funcEntryBody(cc.List, cc.Body, root)
+	// an arm that delegates to a helper: merge what the helper's body says (two levels at most)
+	seen := map[*ast.FuncDecl]bool{}
+	var follow func(ss []ast.Stmt, root *ast.Ident, depth int)
+	follow = func(ss []ast.Stmt, root *ast.Ident, depth int) {
+		if depth > 2 {
+			return
+		}
+		fds, ps := c.delegates(ss, root)
+		for i, fd := range fds {
+			if seen[fd] {
+				continue
+			}
+			seen[fd] = true
+			g := c.funcEntryBody(nil, fd.Body.List, ps[i])
+			if g.MinArgs > fe.MinArgs {
+				fe.MinArgs = g.MinArgs
+			}
+			if g.MaxArgs != nil && (fe.MaxArgs == nil || *g.MaxArgs < *fe.MaxArgs) {
+				fe.MaxArgs = g.MaxArgs
+			}
+			have := map[int64]bool{}
+			for _, u := range fe.UsesArgs {
+				have[u] = true
+			}
+			for _, u := range g.UsesArgs {
+				if !have[u] {
+					fe.UsesArgs = append(fe.UsesArgs, u)
+				}
+			}
+			sort.Slice(fe.UsesArgs, func(a, b int) bool { return fe.UsesArgs[a] < fe.UsesArgs[b] })
+			fe.Variadic = fe.Variadic || g.Variadic
+			fe.Ctor = orderedSet(append(fe.Ctor, g.Ctor...))
+			follow(fd.Body.List, ps[i], depth+1)
+		}
+	}
+	follow(cc.Body, root, 1)
+	return fe
+}
+
+func (c *ctx) funcEntryBody(labels []ast.Expr, body []ast.Stmt, root *ast.Ident) funcEntry {
+	cc := &ast.CaseClause{List: labels, Body: body}
 	fe := funcEntry{Names: []string{}, UsesArgs: []int64{}, Ctor: []string{}}
 	for _, lab := range cc.List {
 		if s, ok := strLit(lab); ok {
